@@ -153,3 +153,22 @@ def sany(module, spec_dir=SPEC, timeout=120):
         return ok, p.stdout
     finally:
         shutil.rmtree(scratch, ignore_errors=True)
+
+
+def tlapm(module, spec_dir=None, timeout=600, threads=16):
+    """Run the TLA+ proof system on spec_dir/module.tla in a scratch copy; returns (all_proved, obligations, tail of output)."""
+    spec_dir = spec_dir or SPEC
+    scratch = make_scratch("verif-tlaps-")
+    try:
+        for f in os.listdir(spec_dir):
+            if f.endswith(".tla"):
+                shutil.copy(os.path.join(spec_dir, f), os.path.join(scratch, f))
+        try:
+            p = subprocess.run(["tlapm", "--threads", str(threads), module + ".tla"], cwd=scratch, stdout=subprocess.PIPE,
+                               stderr=subprocess.STDOUT, text=True, timeout=timeout)
+        except subprocess.TimeoutExpired:
+            return False, 0, "timeout after %ss" % timeout
+        m = re.search(r"All (\d+) obligations? proved", p.stdout)
+        return bool(m), int(m.group(1)) if m else 0, p.stdout[-1500:]
+    finally:
+        shutil.rmtree(scratch, ignore_errors=True)
